@@ -52,6 +52,9 @@ BIG = [
     Cfg("B2:2prod x2,2 cons x2,max=2,shutdown", 2, 2, 2, [2, 2], True),
     Cfg("B3:2prod x2,cons x4 + try_pop x2,max=1", 2, 2, 1, [2], False, 2),
     Cfg("B4:2prod x3,2 cons x3,unbounded", 2, 3, 0, [3, 3], False),
+    Cfg("B5:3prod x2,2 cons x3,max=2", 3, 2, 2, [3, 3], False),
+    Cfg("B6:3prod x2,2 cons x3,max=1,shutdown", 3, 2, 1, [3, 3], True),
+    Cfg("B7:3prod x2,cons x3 + try_pop x3,max=1,shutdown", 3, 2, 1, [3], True, 3),
 ]
 
 
